@@ -15,7 +15,7 @@ T4   the parameters built for each effort 1..9 pass their own check() (constant 
 import math
 
 from ..frontend import AnalysisBroken
-from ..model import qt, loc_str, walk, inner
+from ..model import desugared, qt, loc_str, walk, inner
 from ..expr import canon, pretty, children, strip, callee_info, subterms, CALL_KINDS
 from ..cfg import cfg_of
 from ..intervals import eval_int, eval_cond, env_at, env_at_node, refine, TOP, INF
@@ -50,13 +50,17 @@ def run(ctx, rep, tier):
     rep.rule("G18", "pin cell indices and net limits validated by throw before pins are stored", min_instances=3)
     rep.rule("G18b", "no assert()-based validation of arguments in public Circuit mutators", min_instances=1)
     rep.rule("P2", "params.check() first in the algorithm entry points", min_instances=3)
+    rep.rule("VB", "a throwing validation never reads a member the same function has already overwritten (rejected calls leave the object unchanged)", 0)
     rep.rule("T4", "ColoquinteParameters(e) passes its own check for every effort e in 1..9", min_instances=9)
     check_b1(ctx, rep)
     check_b2(ctx, rep)
     check_g17(ctx, rep)
+    check_solution_args(ctx, rep)
     check_g18(ctx, rep)
     from . import c19_defaults
     c19_defaults.run(ctx, rep)
+    from .c07 import check_vb
+    check_vb(ctx, prog, rep, False, "VB")
     p2_set = {CQ + q for q in c10.CHECK_FIRST}
     for q in c10.CHECK_FIRST:
         c10.check_params_first(ctx, rep, prog.func1(CQ + q), p2_set)
@@ -248,10 +252,10 @@ def size_check_of(c, val):
     return None
 
 
-def check_g17(ctx, rep):
+def check_g17(ctx, rep, rid="G17", fields=None):
     prog, eff = ctx.prog, ctx.eff
-    per_cell = {CQ + "Circuit::" + f for f in PER_CELL}
-    per_net = {CQ + "Circuit::" + f for f in PER_NET}
+    per_cell = {CQ + "Circuit::" + f for f in (PER_CELL if fields is None else fields)}
+    per_net = {CQ + "Circuit::" + f for f in (PER_NET if fields is None else ())}
     for f in prog.funcs.values():
         if f.cls != CQ + "Circuit" or f.kind != "CXXMethodDecl" or f.is_const or f.is_static:
             continue
@@ -290,12 +294,66 @@ def check_g17(ctx, rep):
                     break
             what = "%s(%s)" % (f.short, p.get("name"))
             if bad:
-                rep.violation("G17", bad[1], f, what,
+                rep.violation(rid, bad[1], f, what,
                               "write to %s is not dominated by a throwing check %s.size() == nb%s()" % (
                                   short(bad[0]), p.get("name"), "Cells" if want == "cells" else "Nets"),
                               key="%s|no length check of %s" % (f.short, p.get("name")))
             else:
-                rep.holds("G17", f.decl, f, what, "size == nb%s() dominates %d member write(s)" % ("Cells" if want == "cells" else "Nets", nwrites))
+                rep.holds(rid, f.decl, f, what, "size == nb%s() dominates %d member write(s)" % ("Cells" if want == "cells" else "Nets", nwrites))
+
+
+def check_solution_args(ctx, rep):
+    """G17b. A PlacementSolution is per-cell by type. A Circuit method that reads the elements of a PlacementSolution argument does so
+    only after a throwing comparison of its size with nbCells() (so that every later loop over the cells, in this function or in
+    its callers, stays inside it); a method that merely forwards the argument is covered by its callee."""
+    prog = ctx.prog
+    n = 0
+    for f in prog.funcs.values():
+        if f.cls != CQ + "Circuit" or f.kind != "CXXMethodDecl" or f.body is None:
+            continue
+        for p in f.params:
+            if "PlacementSolution" not in qt(p) and "vector<coloquinte::CellPlacement" not in (desugared(p) or ""):
+                continue
+            pc = ("var", p.get("id"), p.get("name"))
+            reads = []
+            for r in ctx.eff.var_refs(f, p.get("id")):
+                par = r.get("_p")
+                while par is not None and par.get("kind") in ("ImplicitCastExpr", "ParenExpr"):
+                    par = par.get("_p")
+                if par is None:
+                    continue
+                k = par.get("kind")
+                if k == "CXXOperatorCallExpr" and callee_info(par)["name"] == "operator[]":
+                    reads.append(par)
+                elif k == "MemberExpr" and par.get("name") in ("at", "begin", "end", "front", "back", "data"):
+                    reads.append(par)
+                elif k in ("DeclStmt", "VarDecl") and (r.get("_p") or {}).get("kind") != "CallExpr":
+                    gp = par
+                    while gp is not None and gp.get("kind") not in ("CXXForRangeStmt", "CompoundStmt"):
+                        gp = gp.get("_p")
+                    if gp is not None and gp.get("kind") == "CXXForRangeStmt":
+                        reads.append(gp)
+            if not reads:
+                continue
+            n += 1
+            bad = None
+            for x in reads:
+                ok = False
+                for gc, val, _a, _as in (ctx.guards(f, x) or []):
+                    sc = size_check_of(gc, val)
+                    if sc and sc[0] == pc and sc[1] == "cells":
+                        ok = True
+                if not ok:
+                    bad = x
+                    break
+            what = "%s reads the elements of its PlacementSolution argument %s" % (f.short, p.get("name"))
+            if bad is None:
+                rep.holds("G17", f.decl, f, what, "only after a throwing check %s.size() == nbCells()" % p.get("name"))
+            else:
+                rep.violation("G17", bad, f, what, "without a dominating throwing comparison of %s.size() with nbCells(): a solution of another length "
+                              "is read (here or by the callers that loop over the cells) out of bounds" % p.get("name"),
+                              key="%s|solution %s read without length check" % (f.short, p.get("name")))
+    return n
 
 
 # ---- G18 -----------------------------------------------------------------
